@@ -174,6 +174,17 @@ std::string body_C03(Ctx& c, CaseIn& in) {
   return "";
 }
 
+std::string int_sweep_one(Ctx& c, const TypeOps& t, uint64_t u) {
+  Value v; v.u = norm_int(u, t.schema->bits, t.schema->sgn);
+  auto o = t.make(); o->assign(v);
+  Written w = lib_encode(t, *o);
+  Encoded ref = ref_encode(*t.schema, v);
+  c.rep.evaluations++;
+  if (w.status != 0 || w.bytes != ref.bytes) return fmt("bytes-differ: integer sweep value %s: lib %s ref %s", to_text(*t.schema, v).c_str(), hex(w.bytes).c_str(), hex(ref.bytes).c_str());
+  if (ref.bytes.size() > 1) c.rep.nontriv(case_hash(t, v));
+  return "";
+}
+
 // Exhaustive side-car: top-level integer types, every value near every class boundary, and all
 // values of 8/16-bit types.
 void extra_C03(Ctx& c) {
@@ -191,20 +202,9 @@ void extra_C03(Ctx& c) {
       }
       if (!sgn) for (int64_t d = 0; d <= 300; d++) vals.push_back(norm_int(~0ull - (uint64_t)d, bits, false));
     }
-    auto o = t.make();
     for (uint64_t u : vals) {
-      Value v; v.u = u;
-      o->assign(v);
-      Written w = lib_encode(t, *o);
-      Encoded ref = ref_encode(*t.schema, v);
-      c.rep.evaluations++;
-      if (w.status != 0 || w.bytes != ref.bytes) {
-        CaseIn in; in.t = &t; in.src = "int:" + std::to_string(u);
-        c.rep.fail(fmt("bytes-differ: integer sweep value %s: lib %s ref %s", to_text(*t.schema, v).c_str(), hex(w.bytes).c_str(), hex(ref.bytes).c_str()),
-                   "prop=C03 type=" + t.name + " src=int:" + std::to_string(u), "C03|" + t.name + "|bytes-differ");
-        break;
-      }
-      if (ref.bytes.size() > 1) c.rep.nontriv(case_hash(t, v));
+      std::string m = int_sweep_one(c, t, u);
+      if (!m.empty()) { c.rep.fail(m, "prop=C03 type=" + t.name + " src=int:" + std::to_string(u), "C03|" + t.name + "|bytes-differ"); break; }
     }
     c.rep.label("int-sweep-values", (long)vals.size());
   }
